@@ -14,6 +14,8 @@ helpers below let the generators vary them.  All of them keep the numbers of the
 """
 from __future__ import annotations
 
+import threading
+
 import numpy as np
 
 LAYOUTS = ("contig", "column", "strided", "reversed")
@@ -32,56 +34,96 @@ def _filler(n, dtype):
     return f.astype(dtype)
 
 
-HISTORIES = ("none", "refill", "hash_twin", "bytes_twin", "dtype_twin", "repeat", "dashO")
-
-# per-case state, set by the runner (`begin`) around every `run_impl`
-_ST = {"layouts": ("contig",), "hist": "none", "pass": 0, "bufs": [], "i": 0}
+HISTORIES = ("none", "refill", "hash_twin", "bytes_twin", "dtype_twin", "repeat", "alias", "debuglog", "dashO", "threads",
+             "preempt")
 
 
-def decorate(case, rng, allow_dash_o=True):
+class _State(threading.local):
+    """per-case state, set by the runner (`begin`) around every `run_impl`; one per thread"""
+
+    def __init__(self):
+        self.layouts = ("contig",)
+        self.hist = "none"
+        self.pas = 0
+        self.bufs = []
+        self.made = []
+        self.i = 0
+
+
+_ST = _State()
+
+
+def decorate(case, rng, allow_dash_o=True, allow_threads=False):
     """add the layout / history dimensions to a generated case (kept in the case, so that a replay repeats them)"""
     if not isinstance(case, dict) or "layout" in case:
         return case
     case["layout"] = ",".join(pick_layout(rng) for _ in range(3))
     r = rng.random()
-    if r < 0.62:
-        h = "none"
-    elif r < 0.78:
-        h = "refill"
-    elif r < 0.83:
-        h = "hash_twin"
-    elif r < 0.88:
-        h = "bytes_twin"
-    elif r < 0.92:
-        h = "dtype_twin"
-    elif r < 0.96 or not allow_dash_o:
+    table = [(0.50, "none"), (0.14, "refill"), (0.04, "hash_twin"), (0.04, "bytes_twin"), (0.04, "dtype_twin"),
+             (0.04, "repeat"), (0.05, "alias"), (0.04, "debuglog"), (0.04, "dashO"), (0.05, "threads"), (0.02, "preempt")]
+    h, acc = "none", 0.0
+    for p, name in table:
+        acc += p
+        if r < acc:
+            h = name
+            break
+    if h == "dashO" and not allow_dash_o:
         h = "repeat"
-    else:
-        h = "dashO"
+    if h in ("threads", "preempt") and not allow_threads:
+        h = "none"
     case["hist"] = h
     return case
 
 
 def begin(case, pass_):
     lay = case.get("layout") if isinstance(case, dict) else None
-    _ST["layouts"] = tuple(lay.split(",")) if lay else ("contig",)
-    _ST["hist"] = (case.get("hist") if isinstance(case, dict) else None) or "none"
-    _ST["pass"] = pass_
-    _ST["i"] = 0
+    _ST.layouts = tuple(lay.split(",")) if lay else ("contig",)
+    _ST.hist = (case.get("hist") if isinstance(case, dict) else None) or "none"
+    _ST.pas = pass_
+    _ST.i = 0
+    _ST.made = []
     if pass_ <= 1:
-        _ST["bufs"] = []
+        _ST.bufs = []
 
 
 def end():
-    _ST.update({"layouts": ("contig",), "hist": "none", "pass": 0, "bufs": [], "i": 0})
+    _ST.layouts, _ST.hist, _ST.pas, _ST.bufs, _ST.made, _ST.i = ("contig",), "none", 0, [], [], 0
+
+
+class _debug_logging:
+    """the application has switched debug logging on (for every logger, records dropped by a null handler)"""
+
+    def __enter__(self):
+        import logging
+        self.root = logging.getLogger()
+        self.lib = logging.getLogger("traffic_weaver")
+        self.old = (self.root.level, self.lib.level, logging.root.manager.disable)
+        self.h = logging.NullHandler()
+        self.root.addHandler(self.h)
+        self.root.setLevel(logging.DEBUG)
+        self.lib.setLevel(logging.DEBUG)
+        logging.disable(logging.NOTSET)
+
+    def __exit__(self, *a):
+        import logging
+        self.root.removeHandler(self.h)
+        self.root.setLevel(self.old[0])
+        self.lib.setLevel(self.old[1])
+        logging.disable(self.old[2])
+        return False
 
 
 def run_with_history(run_impl, case):
     """run the implementation on a case the way its `hist` says: possibly after a prelude that hands the library
-    the same array objects with other contents (refill), or look-alike series (twins), or the same call (repeat)"""
+    the same array objects with other contents (refill), or look-alike series (twins), or the same call (repeat);
+    with equal arguments being one object (alias); with debug logging switched on (debuglog)"""
     h = (case.get("hist") if isinstance(case, dict) else None) or "none"
     try:
-        if h in ("none", "dashO"):
+        if h == "debuglog":
+            begin(case, 0)
+            with _debug_logging():
+                return run_impl(case)
+        if h in ("none", "dashO", "threads", "preempt", "alias"):
             begin(case, 0)
             return run_impl(case)
         begin(case, 1)
@@ -96,27 +138,53 @@ def run_with_history(run_impl, case):
         end()
 
 
+def run_decoy(run_impl, case):
+    """run the implementation on a look-alike of the case: every array has the same length, dtype, layout and end
+    points as the case's, and another interior (used as the *other* threads' work in the schedule dimension)"""
+    import copy
+    c = copy.deepcopy(case)
+    if isinstance(c, dict):
+        c["hist"] = "refill"
+    try:
+        begin(c, 1)
+        try:
+            return run_impl(c)
+        except Exception as e:  # noqa
+            return {"decoy_exception": type(e).__name__}
+    finally:
+        end()
+
+
 def arr(values, dtype=None, layout=None):
     """the ndarray handed to the implementation: the numbers `values`, in the memory layout and with the object
     history of the current case"""
     a = np.array(values) if dtype is None else np.array(values, dtype=dtype)
-    i = _ST["i"]
-    _ST["i"] = i + 1
+    i = _ST.i
+    _ST.i = i + 1
     if layout is None:
-        layout = _ST["layouts"][i % len(_ST["layouts"])]
-    h, ps = _ST["hist"], _ST["pass"]
+        layout = _ST.layouts[i % len(_ST.layouts)]
+    h, ps = _ST.hist, _ST.pas
     if a.ndim != 1 or a.dtype.kind not in "fiu":
         return a
+    if h == "alias":
+        # two arguments with the same numbers are ONE object (resampling at the original points, a series matched
+        # against its own grid, ...)
+        for m in _ST.made:
+            if m.dtype == a.dtype and m.shape == a.shape and np.array_equal(m, a):
+                return m
+        v = _lay(a, layout)
+        _ST.made.append(v)
+        return v
     if ps == 1:
         if h == "refill":
             buf = _lay(interior_decoy(a), layout)
-            _ST["bufs"].append(buf)
+            _ST.bufs.append(buf)
             return buf
         tw = {"hash_twin": hash_twin, "bytes_twin": bytes_twin, "dtype_twin": dtype_twin}.get(h)
         t = tw(a) if tw else None
         return _lay(a if t is None else t, layout)
     if ps == 2 and h == "refill":
-        bufs = _ST["bufs"]
+        bufs = _ST.bufs
         if i < len(bufs) and bufs[i].shape == a.shape and bufs[i].dtype == a.dtype:
             bufs[i][...] = a
             return bufs[i]
